@@ -424,7 +424,8 @@ impl Debug for FramesDebug {
 
 pub(crate) fn num_frames(frames: &[Frame], slice: Option<(usize, usize)>) -> usize {
 	if let Some((start, end)) = slice {
-		end - start
+		// the slice is a public field: clamp it to the audio that exists
+		end.min(frames.len()).saturating_sub(start)
 	} else {
 		frames.len()
 	}
@@ -439,5 +440,5 @@ pub(crate) fn frame_at_index(
 		return None;
 	}
 	let start = slice.map(|(start, _)| start).unwrap_or_default();
-	Some(frames[index + start])
+	frames.get(index + start).copied()
 }
